@@ -7,7 +7,7 @@ RULE = ("structure-aware corruptions (sizes, entry sizes, links, bucket counts, 
         "images containing relocation (REL/RELA), symbol + SysV/GNU hash, array, version-index, version-need and version-definition "
         "tables, of random well-formed images and small bundled examples, x 4 configurations x {eager, lazy}; after loading, every "
         "such table is queried: relocation entries with and without symbol resolution, symbol lookup by five names and two values, "
-        "arrange_local_symbols, array entries, version indices, need/definition entries, at indices 0, 1, count-1, count, count+1, 2^32-1. "
+        "arrange_local_symbols, array entries (also: array sections with entry sizes 0-24 and sizes 8-32 read with 4- and 8-byte elements at every index up to the byte size), version indices, need/definition entries, at indices 0, 1, count-1, count, count+1, 2^32-1. "
         "Non-trivial = the load succeeded and a field was corrupted.")
 ASSUMPTIONS = ["inputs below 2 GiB"]
 KEEP_PREFIX = 2
@@ -104,6 +104,32 @@ def generate(rng, tier):
         kind = "str" if i % 2 == 0 else "file"
         lazy = (i // 2) % 2
         cases.append(mk("m%d" % i, mb, kind, lazy, True))
+    # array sections whose entry size disagrees with the accessor's element width (both widths are queried
+    # whatever the file's class: array_section_accessor<T> is instantiated by the caller), at every index
+    # up to the section's byte size
+    import struct
+    na = 0
+    for i in range(len(bs) * (3 if tier == "quick" else 12)):
+        im, b = bs[i % len(bs)]
+        arrs = [k for k, s_ in enumerate(im.sections) if s_["type"] in (14, 15, 16) and s_["data"] is not None and s_["size"] >= 8]
+        if not arrs:
+            continue
+        k = rng.choice(arrs)
+        sites = {w: (o, wd) for o, wd, w in elfimg.field_sites(im)}
+        mb = bytearray(b)
+        e = "<" if im.enc == "lsb" else ">"
+        es = rng.choice([0, 1, 2, 3, 4, 5, 6, 7, 8, 9, 12, 16, 24])
+        size = min(im.sections[k]["size"], rng.choice([8, 9, 12, 15, 16, 17, 20, 24, 31, 32]))
+        for nm, v in (("sh%d.entsize" % k, es), ("sh%d.size" % k, size)):
+            o, wd = sites[nm]
+            mb[o:o + wd] = struct.pack(e + {2: "H", 4: "I", 8: "Q"}[wd], v)
+        lines = ["ctor plain", "load %s %d %s" % ("str" if i % 2 == 0 else "file", (i // 2) % 2, hx(bytes(mb)))]
+        for wd in (4, 8):
+            lines.append("arrnum %d %d" % (k, wd))
+            for ix in list(range(0, size + 2)) + [2**32 - 1, 2**32, 2**61]:
+                lines.append("arrget %d %d %d" % (k, wd, ix))
+        cases.append(Case("a%d" % na, lines, {"size": len(mb), "mutated": True}))
+        na += 1
     # unmutated bases, archived crashers, random bytes with a valid ident
     for j, (im, b) in enumerate(bs[:16]):
         cases.append(mk("b%d" % j, b, "str", j % 2, False))
@@ -125,5 +151,6 @@ def distribution(cases):
     for c in cases:
         d["mutated"] += c.id.startswith("m"); d["archived_crashers"] += c.id.startswith("c")
         d["random_bytes"] += c.id.startswith("r"); d["unmutated"] += c.id.startswith("b")
+        d["array_width_vs_entry_size"] = d.get("array_width_vs_entry_size", 0) + c.id.startswith("a")
         d["lazy"] += " 1 " in c.lines[1][:12]; d["file_streams"] += c.lines[1].startswith("load file")
     return d
